@@ -20,6 +20,7 @@ func views() map[string]View {
 		"elastic":   elasticView{},
 		"connio":    connioView{},
 		"authwatch": authwatchView{},
+		"poolmon":   poolmonView{},
 	}
 }
 
